@@ -735,10 +735,19 @@ func (r *stratRoles) insertionGuards(p *Prog, res *Result, withLimit bool) {
 				if v != nil {
 					vo = F.objOf(v)
 				}
+				vtxt := exprStr(unparen(c.Args[len(c.Args)-1]))
 				if enterGuard(F, c, func(cond ast.Expr) bool {
 					for _, d := range splitOp(cond, token.LAND) {
-						if capAtom(F, d, vo, true) {
+						if vo != nil && capAtom(F, d, vo, true) {
 							return true
+						}
+						// the pushed value written as an element expression (`infos[i]`): the test reads the same expression
+						if b, ok := unparen(d).(*ast.BinaryExpr); ok && vo == nil {
+							if sel, ok := unparen(b.X).(*ast.SelectorExpr); ok && sel.Sel.Name == "Capacity" && exprStr(unparen(sel.X)) == vtxt {
+								if k, isC := F.constInt(b.Y); isC && ((b.Op == token.GTR && k == 0) || (b.Op == token.NEQ && k == 0) || (b.Op == token.GEQ && k == 1)) {
+									return true
+								}
+							}
 						}
 					}
 					return false
@@ -1191,7 +1200,17 @@ func checkC02(p *Prog, res *Result, tier string) {
 			if pa.end == "return" && isErr {
 				rf := &refusal{rt: pa.ret, class: map[string]bool{}, where: "after the loop"}
 				if len(pa.conds) == 0 {
-					rf.class["after-loop"] = true
+					// `for cond { … }` left without a break: the statement after it runs exactly when cond fails
+					cls := "after-loop"
+					if fs, ok := r.loop.(*ast.ForStmt); ok && fs.Cond != nil && len(loopEarlyExitsOfKind(fs.Body, token.BREAK)) == 0 {
+						if recs := x.cond(fs.Cond, false, newSpath().state); len(recs) == 1 {
+							// a counting loop's bound says nothing about the request: only a recognised condition replaces the class
+							if c := classifyRefusal(r, recs[0]); !strings.HasPrefix(c, "other:") {
+								cls = c
+							}
+						}
+					}
+					rf.class[cls] = true
 				} else {
 					rf.class[classifyRefusal(r, pa.conds[len(pa.conds)-1])] = true
 				}
